@@ -858,7 +858,7 @@ def run(ctx):
     def broken_run(x):
         scn, off, inv = x
         return tlc.run(SPEC, cfg_text=cfg_text(scn, invariants=[inv], **off), workdir=os.path.join(ctx.work, "tlc_sanity_%d" % broken.index(x)),
-                       workers=2, allow_violation=True, coverage=False)
+                       workers=1, allow_violation=True, coverage=False)
     for (scn, off, inv), r in zip(broken, _threads(broken_run, broken, 3)):
         key = "%s with %s" % (scn, ",".join("%s=FALSE" % k for k in off))
         if r.violation is None or r.violation["name"] != inv:
